@@ -50,7 +50,8 @@ ASSUMPTIONS = [
     'cannot occur',
 ]
 TRUSTED = ['reference interpreter of scoping / calling convention / library injection (class Ref, with its own systemGlobalGet/Set and its own include: an included script runs at top level) and the closed-form '
-           'oracles (expected_binding, the include-scope matrix scope_cell_case, the include-position metamorphic relation) in '
+           'oracles (expected_binding, the include-scope matrix scope_cell_case, the include-position metamorphic relation, the source-spelling '
+           'renderer Speller / header_text whose texts are expected to mean the structured program they were rendered from) in '
            'harness/props/C04.py; the library functions themselves, the operators and value_string are shared '
            'with the implementation (they belong to C03/C13/C15)']
 
@@ -341,8 +342,22 @@ def files_text(files):
     return None if files is None else {url: '\n'.join(progen.render(fp)) + '\n' for url, fp in files.items()}
 
 
-def run_impl(model, host_spec, max_statements=MAX_STATEMENTS, files=None):
-    return progen.run_impl(model, realize_globals(host_spec), max_statements=max_statements, files=files_text(files))
+def run_impl(model, host_spec, max_statements=MAX_STATEMENTS, files=None, ftexts=None):
+    """files: {url: structured program} served in the canonical spelling, unless ftexts ({url: source text}) gives the texts"""
+    return progen.run_impl(model, realize_globals(host_spec), max_statements=max_statements,
+                           files=ftexts if ftexts is not None else files_text(files))
+
+
+def run_text(text, host_spec, flags=False, files=None, ftexts=None, max_statements=MAX_STATEMENTS):
+    """parse_script + execute_script of a source text -> canonical outcome; a text the parser rejects is an outcome too (the
+    generated texts are all well-formed, so a rejection shows up as a difference to the reference / the model)"""
+    try:
+        model = parse(text)
+    except fw.impl()['parser'].BareScriptParserError as exc:
+        return {'error': 'ParserError ' + str(exc).split('\n', 1)[0], 'log': [], 'count': None,
+                'globals': sorted([[k, wire_value(v)] for k, v in host_spec.items() if not (is_lib_marker(v) and v['$lib'] == k)],
+                                  key=lambda kv: kv[0])}
+    return run_impl(explicit_flags(model) if flags else model, host_spec, max_statements=max_statements, files=files, ftexts=ftexts)
 
 
 def budget_exceeded(out):
@@ -1047,6 +1062,232 @@ def check_scope_cell(cell):
     return check_scope_outcome(cell, impl, want, want_globals)
 
 
+# ---------------------------------------------------------------------------------------------------------------------
+# Source spelling.  The property is about SCRIPTS: what a function definition, a call, an assignment mean must not depend on how
+# the source text spells them.  progen.render writes ONE spelling (`function f(a, b):`, four blanks of indentation, one blank around
+# `=`); the language grants white space (any `\s` character) at every token boundary of a statement line - before and after each
+# comma and parenthesis of a parameter list, before `...`, before `:`, around `=`, after `return` / `include` / `if`, as
+# indentation and at the end of the line -, comment and blank lines anywhere, `\r\n` line ends and a backslash line continuation
+# at any of those boundaries (the continued parts are joined with one blank).  A Speller renders a structured program with every
+# such freedom chosen at random; the expectation never looks at the text (reference interpreter on the structured program,
+# closed-form binding, the Lean machine on the script of the canonical spelling).
+# ---------------------------------------------------------------------------------------------------------------------
+
+SPELL_PROFILES = {
+    # name: (optional blanks, mandatory blanks, indentation units)
+    'blanks': (['', ' ', ' ', '  '], [' ', '  '], ['    ', '  ', ' ', '']),
+    'tabs': (['', '\t', ' \t', '\t ', ' '], ['\t', ' \t', '\t\t'], ['\t', '\t\t', ' \t', '']),
+    'exotic': (['', ' ', '\u00a0', '\u2003', '\x0c', '\u3000', ' \x0b'], ['\u00a0', '\u2003', '\x0c', ' '], ['\u00a0\u00a0', '\x0c', '  ', '']),
+    'continued': (['', ' ', '\\\n', ' \\\n    ', '\\ \t\n\t', ' \\\n\n  '], ['\\\n', ' \\\n        ', ' '], ['    ', '  ', '']),
+}
+SPELL_COMMENTS = ['', '   ', '# note', '    # function ff(p , q...):', '\t#', '#x = 1']
+
+
+class Speller:
+    """renders the statement kinds the C04 generators use (expr, ret, if/elif/else, func, include) with random white space, comment
+    lines, line continuations and line ends; all choices from one random.Random"""
+
+    def __init__(self, rng, profile=None):
+        self.rng = rng
+        self.profile = profile or rng.choice(['blanks', 'blanks', 'tabs', 'tabs', 'exotic', 'continued', 'continued'])
+        self.optional, self.mandatory, units = SPELL_PROFILES[self.profile]
+        self.unit = rng.choice(units)
+        self.eol = '\r\n' if rng.random() < 0.2 else '\n'
+        self.comments = rng.random() < 0.4
+        self.tags = {'spelling:' + self.profile} | ({'spelling:crlf'} if self.eol != '\n' else set()) | \
+                    ({'spelling:comment-lines'} if self.comments else set())
+
+    def opt(self):
+        """a token boundary where white space is optional"""
+        return self.rng.choice(self.optional) if self.rng.random() < 0.6 else ''
+
+    def must(self):
+        """a token boundary that needs white space (after a keyword)"""
+        return self.rng.choice(self.mandatory)
+
+    def end(self):
+        """the end of a line: blanks, never a continuation"""
+        b = self.opt()
+        return '' if '\n' in b else b
+
+    def pad(self, depth):
+        return self.unit * depth if self.rng.random() < 0.8 else self.end()
+
+    # -- expressions: the argument list of a call is spelled freely, operators keep a blank on both sides (C10 owns the expression text)
+    def expr(self, e):
+        (k, v), = e.items()
+        if k == 'group':
+            return '(' + self.opt() + self.expr(v) + self.opt() + ')'
+        if k == 'unary':
+            return v['op'] + self.expr(v['expr'])
+        if k == 'function':
+            sep = lambda: self.opt() + ',' + self.opt()  # noqa: E731
+            out = v['name'] + '(' + self.opt()
+            for i, a in enumerate(v['args']):
+                out += (sep() if i else '') + self.expr(a)
+            return out + (self.opt() if v['args'] else '') + ')'
+        if k == 'binary':
+            return self.expr(v['left']) + self.must() + v['op'] + self.must() + self.expr(v['right'])
+        return progen.expr_text(e)
+
+    def header(self, s, depth=0):
+        """`[async] function NAME ( A , B ... ) :` - every boundary of the parameter list is a slot"""
+        out = self.pad(depth) + ('async' + self.must() if s.get('async') else '') + 'function' + self.must() + s['name'] + self.opt() + '('
+        out += self.opt()
+        for i, a in enumerate(s['args']):
+            out += (self.opt() + ',' + self.opt() if i else '') + a
+        if s.get('lastArgArray'):
+            out += self.opt() + '...'
+        return out + self.opt() + ')' + self.opt() + ':' + self.end()
+
+    def lines(self, block, depth=0, out=None):
+        out = [] if out is None else out
+        for s in block:
+            if self.comments and self.rng.random() < 0.3:
+                out.append(self.rng.choice(SPELL_COMMENTS))
+            k = s['k']
+            if k == 'expr':
+                out.append(self.pad(depth) + (s['name'] + self.opt() + '=' + self.opt() if s.get('name') else '') + self.expr(s['e']) + self.end())
+            elif k == 'ret':
+                out.append(self.pad(depth) + 'return' + (self.must() + self.expr(s['e']) if s.get('e') else '') + self.end())
+            elif k == 'if':
+                out.append(self.pad(depth) + 'if' + self.must() + self.expr(s['c']) + self.opt() + ':' + self.end())
+                self.lines(s['t'], depth + 1, out)
+                els = s.get('else')
+                while els is not None:
+                    if els['k'] == 'else':
+                        out.append(self.pad(depth) + 'else' + self.opt() + ':' + self.end())
+                        self.lines(els['b'], depth + 1, out)
+                        els = None
+                    else:
+                        out.append(self.pad(depth) + 'elif' + self.must() + self.expr(els['c']) + self.opt() + ':' + self.end())
+                        self.lines(els['t'], depth + 1, out)
+                        els = els.get('else')
+                out.append(self.pad(depth) + 'endif' + self.end())
+            elif k == 'func':
+                out.append(self.header(s, depth))
+                self.lines(s['b'], depth + 1, out)
+                out.append(self.pad(depth) + 'endfunction' + self.end())
+            elif k == 'include':
+                for inc in s['includes']:
+                    out.append(self.pad(depth) + 'include' + self.must() + "'" + inc['url'].replace("'", "\\'") + "'" + self.end())
+            else:
+                raise ValueError('outside the spelled subset: ' + k)
+        return out
+
+    def text(self, prog):
+        return self.eol.join(self.lines(prog)) + self.eol
+
+
+def spell_case(rng, prog, files=None):
+    """-> (source text of prog, {url: source text} | None, tags): one random spelling of the program and of every file it includes"""
+    sp = Speller(rng)
+    text = sp.text(prog)
+    ftexts = None if files is None else {url: Speller(rng, sp.profile).text(fp) for url, fp in files.items()}
+    return text, ftexts, set(sp.tags)
+
+
+def with_async(rng, prog):
+    """copy of prog with some function definitions declared `async` (the flag has no influence on scoping or binding)"""
+    prog = copy.deepcopy(prog)
+    for s in prog:
+        if s['k'] == 'func' and rng.random() < 0.25:
+            s['async'] = True
+    return prog
+
+
+# the exhaustive / directed header matrix: the definition line alone, the function called from the host -------------------------
+
+HEADER_POOL = ['', ' ', '  ', '\t', ' \t ', '\u00a0', '\u2003', '\x0c', '\\\n', ' \\\n    ', '\\ \n\t']
+
+
+def header_slots(nparams, rest):
+    """names of the white-space slots of `function ff(p, q, r...):` (in source order)"""
+    slots = ['indent', 'after-function', 'before-(', 'after-(']
+    for i in range(1, nparams):
+        slots += [f'before-comma{i}', f'after-comma{i}']
+    return slots + (['before-...'] if rest else []) + ['before-)', 'before-:', 'end']
+
+
+def header_text(params, rest, blanks, is_async=False):
+    """blanks: {slot: white space}; 'after-function' (and 'after-async') need at least one character"""
+    b = lambda slot: blanks.get(slot, '')  # noqa: E731
+    out = b('indent') + ('async' + (blanks.get('after-async') or ' ') if is_async else '') + 'function' + (b('after-function') or ' ') + 'ff' + b('before-(') + '('
+    out += b('after-(')
+    for i, p in enumerate(params):
+        out += (b(f'before-comma{i}') + ',' + b(f'after-comma{i}') if i else '') + p
+    if rest:
+        out += b('before-...') + '...'
+    return out + b('before-)') + ')' + b('before-:') + ':' + b('end')
+
+
+def oracle_header(header, params, rest):
+    """the definition line `header` (any spelling of: function ff(params[...]):) defines a function that binds its parameters as
+    documented: defined by a script whose globals already bind every parameter name (so a parameter that is not bound as a local
+    shows the global), then called from the host with 0 .. n+2 arguments; closed-form expectation; the globals are not written"""
+    mods = fw.impl()
+    lib = mods['library'].SCRIPT_FUNCTIONS
+    uniq = list(dict.fromkeys(params))
+    text = header + '\n    return arrayNew(' + ', '.join(uniq) + ')\nendfunction\n'
+    g = {p: 'G:' + p for p in uniq}
+    options = {'globals': g, 'maxStatements': 1000}
+    try:
+        mods['runtime'].execute_script(mods['parser'].parse_script(text), options)
+    except (mods['parser'].BareScriptParserError, mods['runtime'].BareScriptRuntimeError) as exc:
+        return [('definition-accepted', 'a function definition', str(exc).split('\n', 1)[0])]
+    fn = g.get('ff')
+    if not callable(fn) or fn is lib.get('ff'):
+        return [('definition-accepted', 'globals["ff"] is the script function', progen.value_to_wire(fn, lib))]
+    bad = []
+    for nargs in range(min(len(params) + 2, len(ARG_VALUES)) + 1):
+        args = copy.deepcopy(ARG_VALUES[:nargs])
+        try:
+            got = fn(list(args), options)
+        except Exception as exc:  # pylint: disable=broad-except
+            got = type(exc).__name__ + ': ' + str(exc)[:100]
+        bound = expected_binding(params, rest, args)
+        want = [bound[p] for p in uniq]
+        if got != want:
+            bad.append(('parameter-binding-spelled', {'nargs': nargs, 'value': want}, {'nargs': nargs, 'value': progen.value_to_wire(got, lib)}))
+            break
+    changed = sorted(k for k in g if k != 'ff' and not (k in lib and g[k] is lib[k]) and g.get(k) != ('G:' + k if k in uniq else None))
+    if changed:
+        bad.append(('call-leaves-globals', {p: 'G:' + p for p in uniq}, {k: progen.value_to_wire(g[k], lib) for k in changed}))
+    return bad
+
+
+def header_cases(rng, n_random):
+    """-> (params, rest, blanks, is_async, tag): (A) every assignment of {none, one blank} to the slots inside the header, 0-3
+    parameters, with and without `...`; (B) each slot alone x every white-space string of the pool (tab, several, Unicode spaces, form
+    feed, line continuations) x the others empty / one blank; (C) random assignments from the whole pool, duplicate names, async"""
+    for nparams in range(4):
+        params = ['p', 'q', 'r'][:nparams]
+        for rest in (False, True):
+            slots = header_slots(nparams, rest)
+            inner = [sl for sl in slots if sl not in ('indent', 'end', 'after-function')]
+            for combo in itertools.product(['', ' '], repeat=len(inner)):
+                yield params, rest, dict(zip(inner, combo)), False, 'exhaustive-blank'
+            for sl in slots:
+                for ws in HEADER_POOL:
+                    if '\n' in ws and sl in ('indent', 'end'):
+                        continue
+                    for base in ('', ' '):
+                        blanks = {x: base for x in inner}
+                        blanks[sl] = ws
+                        yield params, rest, blanks, False, 'one-slot'
+    for _ in range(n_random):
+        nparams = rng.randint(0, 3)
+        params = rng.sample(PARAM_POOL, nparams)
+        if nparams >= 2 and rng.random() < 0.1:
+            params[-1] = params[0]
+        rest = rng.random() < 0.4
+        blanks = {}
+        for sl in header_slots(nparams, rest) + ['after-async']:
+            ws = rng.choice(HEADER_POOL) if rng.random() < 0.6 else ''
+            blanks[sl] = '' if '\n' in ws and sl in ('indent', 'end') else ws
+        yield params, rest, blanks, rng.random() < 0.2, 'random'
+
+
 
 # ---------------------------------------------------------------------------------------------------------------------
 # Streams
@@ -1078,7 +1319,7 @@ def structured_of_text(text):
                 out.append({'k': 'ret', 'e': progen.canon_expr(v['expr']) if 'expr' in v else None})
             elif k == 'function':
                 out.append({'k': 'func', 'fid': 0, 'name': v['name'], 'args': list(v.get('args', [])),
-                            'lastArgArray': bool(v.get('lastArgArray')), 'async': False, 'b': conv(v['statements'])})
+                            'lastArgArray': bool(v.get('lastArgArray')), 'async': bool(v.get('async')), 'b': conv(v['statements'])})
             elif k == 'include':
                 out.append({'k': 'include', 'includes': [{'url': i['url']} for i in v['includes']]})
             else:
@@ -1092,17 +1333,21 @@ def witness_all(ctx, kind, inp, bad):
         ctx.witness(oracle, dict(inp, kind=kind), want, got)
 
 
-def compare_program(ctx, stream, st, prog, host_spec, tags, flags, resp, modelled=True, files=None):
-    """files: None or {url: structured program} - the scripts the host's fetchFn serves (one flat virtual directory)"""
+def compare_program(ctx, stream, st, prog, host_spec, tags, flags, resp, modelled=True, files=None, spelled=None):
+    """files: None or {url: structured program} - the scripts the host's fetchFn serves (one flat virtual directory); spelled: None (the
+    canonical spelling of progen.render) or (text, {url: text} | None, tags) - another spelling of the same program and files: the
+    implementation reads THAT text, the expectations (model response, reference, oracles) are those of the program"""
     text = '\n'.join(progen.render(prog))
-    model = parse(text)
-    run_model = explicit_flags(model) if flags else model
-    impl = run_impl(run_model, host_spec, files=files)
+    ftexts = files_text(files)
+    if spelled is not None:
+        text, ftexts, stags = spelled
+        tags = set(tags) | stags | {'spelled'}
+    impl = run_text(text, host_spec, flags, ftexts=ftexts)
     nontrivial = 'error' not in impl and 'hostexc' not in impl and any(ln for ln in impl['log'])
     outcome = 'hostexc' if 'hostexc' in impl else ('exceeded' if budget_exceeded(impl) else ('error' if 'error' in impl else 'ok'))
     inp = {'text': text, 'globals': host_spec, 'explicit_flags': flags}
     if files is not None:
-        inp['files'] = files_text(files)
+        inp['files'] = ftexts
     st.case([text, host_spec, flags] + ([inp['files']] if files is not None else []), nontrivial=nontrivial,
             tags=sorted(tags) + [outcome] + (['explicit-lastArgArray'] if flags else []))
     if modelled:
@@ -1129,33 +1374,50 @@ def stream_calls(ctx):
                              'systemPartial / as arrayIndexOf predicate, functions passed as arguments, the same names assigned inside '
                              'functions and at top level, parameters shadowing globals, functions and library names, systemGlobalSet/Get '
                              'inside functions, x host globals shadowing library names, variables and function names; half of the runs on '
-                             'the hand-built variant with explicit lastArgArray flags; execute_script vs Lean machine (result, log, final '
+                             'the hand-built variant with explicit lastArgArray flags; every third program (and every corpus program) in a random SOURCE '
+                             'SPELLING (blanks / tabs / Unicode spaces at every token boundary of the statement lines and argument lists, comment '
+                             'lines, backslash continuations, CRLF, `async`) against the expectations of the program; execute_script vs Lean machine (result, log, final '
                              'globals, statement count) vs the Python reference of the calling convention; non-trivial = terminates without '
                              'error and logs something')
     cases = []
+    srng = ctx.rng('calls-spelling')
     for entry in load_corpus():
         files = {url: structured_of_text(t) for url, t in entry['files'].items()} if 'files' in entry else None
         tags = {'corpus'} | ({'corpus-include'} if files is not None else set())
-        cases.append((structured_of_text(entry['text']), entry.get('globals', {}), tags, False, files))
-        cases.append((structured_of_text(entry['text']), entry.get('globals', {}), tags, True, files))
+        prog = structured_of_text(entry['text'])
+        cases.append((prog, entry.get('globals', {}), tags, False, files, None))
+        cases.append((prog, entry.get('globals', {}), tags, True, files, None))
+        cases.append((prog, entry.get('globals', {}), tags, False, files, spell_case(srng, prog, files)))
+        for alt in entry.get('spellings', []):
+            # hand-written other spellings of the same program: the structure is read from the canonical "text", the implementation runs `alt`
+            cases.append((prog, entry.get('globals', {}), tags | {'corpus-spelling'}, False, files,
+                          (alt, files_text(files), {'spelling:hand-written'})))
     rng = ctx.rng('calls')
     for i in range(ctx.scale(1500, 30000)):
         gen = CallGen(rng)
         prog = gen.program()
-        cases.append((prog, gen.host(), gen.tags, i % 2 == 1, None))
-    resps = ctx.driver.batch([exec_request(prog, host, files) for prog, host, _, _, files in cases])
-    for (prog, host, tags, flags, files), resp in zip(cases, resps):
-        compare_program(ctx, 'calls', st, prog, host, tags, flags, resp, files=files)
+        spelled = None
+        if i % 3 == 2:
+            # the same kind of program in a random source spelling (white space at every token boundary of the statement lines, comment
+            # lines, continuations, CRLF), some definitions `async`
+            prog = progen.assign_fids(with_async(srng, prog))
+            spelled = spell_case(srng, prog)
+        cases.append((prog, gen.host(), gen.tags, i % 2 == 1 and spelled is None, None, spelled))
+    resps = ctx.driver.batch([exec_request(prog, host, files) for prog, host, _, _, files, _ in cases])
+    for (prog, host, tags, flags, files, spelled), resp in zip(cases, resps):
+        compare_program(ctx, 'calls', st, prog, host, tags, flags, resp, files=files, spelled=spelled)
 
 
 def stream_sort(ctx):
     st = ctx.stream('sort', 'the same generator with arraySort(array, compareFn) call-backs added - implementation vs the Python reference '
                             'only (the Lean host has no arraySort); non-trivial = terminates without error and logs something')
     rng = ctx.rng('sort')
-    for _ in range(ctx.scale(300, 6000)):
+    srng = ctx.rng('sort-spelling')
+    for i in range(ctx.scale(300, 6000)):
         gen = CallGen(rng, allow_sort=True)
         prog = gen.program()
-        compare_program(ctx, 'sort', st, prog, gen.host(), gen.tags, rng.random() < 0.5, None, modelled=False)
+        spelled = spell_case(srng, prog) if i % 3 == 2 else None
+        compare_program(ctx, 'sort', st, prog, gen.host(), gen.tags, rng.random() < 0.5 and spelled is None, None, modelled=False, spelled=spelled)
 
 
 def stream_includescope(ctx):
@@ -1188,16 +1450,20 @@ def stream_includes(ctx):
                                 'top-ranked file included from inside a random wrapper function (0-3 parameters named like the names the '
                                 'file uses, optional `...`, 0-4 arguments, 0-2 local assignments) = included at top level, and the '
                                 'wrapper\'s locals afterwards are what the call bound; every 5th program with arraySort call-backs '
-                                '(implementation and reference only); non-trivial = terminates without error and logs something')
+                                '(implementation and reference only); every third program with the script and all its files in a random source spelling; '
+                                'non-trivial = terminates without error and logs something')
     rng = ctx.rng('includes')
+    srng = ctx.rng('includes-spelling')
     cases = []
     for i in range(ctx.scale(700, 12000)):
         gen = IncludeGen(rng, allow_sort=(i % 5 == 4))
         prog = gen.program()
-        cases.append((prog, gen.host(), gen.tags, i % 2 == 1, gen.files, i % 5 != 4, random_wrapper(rng)))
-    resps = iter(ctx.driver.batch([exec_request(prog, host, files) for prog, host, _, _, files, m, _ in cases if m]))
-    for prog, host, tags, flags, files, modelled, wrapper in cases:
-        compare_program(ctx, 'includes', st, prog, host, tags, flags, next(resps) if modelled else None, modelled=modelled, files=files)
+        spelled = spell_case(srng, prog, gen.files) if i % 3 == 2 else None        # the script AND the files it includes, respelled
+        cases.append((prog, gen.host(), gen.tags, i % 2 == 1 and spelled is None, gen.files, i % 5 != 4, random_wrapper(rng), spelled))
+    resps = iter(ctx.driver.batch([exec_request(prog, host, files) for prog, host, _, _, files, m, _, _ in cases if m]))
+    for prog, host, tags, flags, files, modelled, wrapper, spelled in cases:
+        compare_program(ctx, 'includes', st, prog, host, tags, flags, next(resps) if modelled else None, modelled=modelled, files=files,
+                        spelled=spelled)
         url = sorted(files)[-1]
         witness_all(ctx, 'include-transparent', {'fprogs': files, 'files': files_text(files), 'url': url, 'globals': host, 'wrapper': wrapper},
                     oracle_include_transparent(files, url, host, wrapper))
@@ -1297,21 +1563,27 @@ def stream_binding(ctx):
     st = ctx.stream('binding', 'exhaustive calling-convention matrix: 0-3 parameters x with/without `...` x duplicate last name x 0-5 arguments '
                                '(number, string, array, boolean, number) x call path (direct, through a variable, through a parameter of '
                                'another function, systemPartial with every split, partial of a partial, arrayIndexOf predicate, arraySort '
-                               'comparator [implementation only]) x parsed / hand-built model with explicit lastArgArray; the function logs '
+                               'comparator [implementation only]) x parsed / hand-built model with explicit lastArgArray / parsed model of a random other '
+                               'source spelling of the same program; the function logs '
                                'systemType and the value of every parameter; implementation vs Lean machine vs the closed binding formula; '
                                'non-trivial = at least one parameter')
     cells = list(binding_cells())
-    cases = [(cell, flags) for cell in cells for flags in (False, True)]
-    progs = [binding_program(*cell) for cell, _ in cases]
-    modelled = [cell[3] != 'sort' for cell, _ in cases]
+    srng = ctx.rng('binding-spelling')
+    # every cell three times: parsed model, hand-built model with explicit flags, and the parsed model of a random other SPELLING of the
+    # same program (white space around every comma / parenthesis / `...` of the definition and of the calls, continuations, ...)
+    cases = [(cell, flags, sp) for cell in cells for flags, sp in ((False, False), (True, False), (False, True))]
+    progs = [binding_program(*cell) for cell, _, _ in cases]
+    modelled = [cell[3] != 'sort' for cell, _, _ in cases]
     resps = iter(ctx.driver.batch([exec_request(p, {}) for p, m in zip(progs, modelled) if m]))
-    for (cell, flags), prog, m in zip(cases, progs, modelled):
+    for (cell, flags, sp), prog, m in zip(cases, progs, modelled):
         params, rest, nargs, path, split = cell
-        text = '\n'.join(progen.render(prog))
-        model = parse(text)
-        impl = run_impl(explicit_flags(model) if flags else model, {})
+        text, stags = '\n'.join(progen.render(prog)), set()
+        if sp:
+            text, _, stags = spell_case(srng, prog)
+        impl = run_text(text, {}, flags)
         st.case([text, flags], nontrivial=len(params) > 0,
-                tags=[f'params{len(params)}' + ('...' if rest else ''), f'nargs{nargs}', 'path:' + path] + (['explicit-lastArgArray'] if flags else []))
+                tags=[f'params{len(params)}' + ('...' if rest else ''), f'nargs{nargs}', 'path:' + path] + (['explicit-lastArgArray'] if flags else [])
+                + sorted(stags))
         inp = {'text': text, 'globals': {}, 'explicit_flags': flags, 'cell': list(cell)}
         if m:
             ctx.compare('binding', inp, impl, progen.canon_model_out(next(resps)))
@@ -1321,6 +1593,27 @@ def stream_binding(ctx):
     for nparams in (1, 2, 3):
         for nargs in range(6):
             witness_all(ctx, 'rest-fresh', {'nparams': nparams, 'nargs': nargs}, oracle_rest_fresh(nparams, nargs))
+
+
+def stream_spelling(ctx):
+    st = ctx.stream('spelling', 'the definition line `function ff(p, q, r...):` in every spelling the language grants, implementation only: '
+                                '(A) exhaustively {no blank, one blank} at each boundary inside the line (before / after `(`, before / after '
+                                'every comma, before `...`, before `)`, before `:`) for 0-3 parameters with and without `...`; (B) each '
+                                'boundary (also the indentation, after `function`, the line end) alone x {blank, two blanks, tab, mixed, '
+                                'no-break space, em space, form feed, three backslash line continuations} x the other boundaries empty / '
+                                'one blank; (C) random assignments from that pool, parameter names from the generator pool (library and '
+                                'function names, duplicates), `async`; the script is run with globals that bind every parameter name, the '
+                                'function is called from the host with 0 .. n+2 arguments: every parameter has the documented value (closed '
+                                'formula; a parameter that missed its local would show the global) and no global is written; non-trivial = '
+                                'at least one parameter')
+    rng = ctx.rng('spelling')
+    for params, rest, blanks, is_async, tag in header_cases(rng, ctx.scale(1500, 40000)):
+        header = header_text(params, rest, blanks, is_async)
+        st.case([header, params, rest], nontrivial=len(params) > 0,
+                tags=[tag, f'params{len(params)}' + ('...' if rest else '')] + (['async'] if is_async else [])
+                + (['continuation'] if '\n' in header else []) + (['blank-before-comma'] if any(blanks.get(f'before-comma{i}') for i in (1, 2)) else []))
+        witness_all(ctx, 'header', {'header': header, 'params': params, 'rest': rest}, oracle_header(header, params, rest))
+    st.exhaustive = False
 
 
 HOST_PROBE = '''\
@@ -1501,6 +1794,7 @@ def stream_handbuilt(ctx):
 def streams(ctx):
     stream_handbuilt(ctx)
     stream_binding(ctx)
+    stream_spelling(ctx)
     stream_hostglobals(ctx)
     stream_exprmode(ctx)
     stream_includescope(ctx)
@@ -1516,13 +1810,18 @@ def disagreement_known(d, known):
 def search(ctx):
     """a proof obligation or the correspondence broke and no oracle has a witness yet: a larger budget of generated programs through the
     reference interpreter and the focused oracles, on the implementation alone"""
+    rng = ctx.rng('search')
+    for params, rest, blanks, is_async, _ in header_cases(rng, ctx.scale(5000, 60000)):
+        header = header_text(params, rest, blanks, is_async)
+        bad = oracle_header(header, params, rest)
+        if bad:
+            witness_all(ctx, 'header', {'header': header, 'params': params, 'rest': rest}, bad)
+            return
     for cell in binding_cells():
-        for flags in (False, True):
-            prog = binding_program(*cell)
-            text = '\n'.join(progen.render(prog))
-            model = parse(text)
-            impl = run_impl(explicit_flags(model) if flags else model, {})
-            bad = check_binding_cell(cell, impl)
+        prog = binding_program(*cell)
+        for flags, sp in ((False, False), (True, False), (False, True), (False, True)):
+            text = spell_case(rng, prog)[0] if sp else '\n'.join(progen.render(prog))
+            bad = check_binding_cell(cell, run_text(text, {}, flags))
             if bad:
                 witness_all(ctx, 'binding', {'text': text, 'globals': {}, 'explicit_flags': flags, 'cell': list(cell)}, bad)
                 return
@@ -1531,20 +1830,21 @@ def search(ctx):
         if bad:
             witness_all(ctx, 'include-scope', {'cell': cell}, bad)
             return
-    rng = ctx.rng('search')
     for i in range(ctx.scale(8000, 60000)):
         gen = (IncludeGen if i % 3 == 2 else CallGen)(rng, allow_sort=(i % 4 == 0))
         prog = gen.program()
         host = gen.host()
         files = getattr(gen, 'files', None)
         flags = i % 2 == 1
-        text = '\n'.join(progen.render(prog))
-        model = parse(text)
-        impl = run_impl(explicit_flags(model) if flags else model, host, files=files)
+        text, ftexts = '\n'.join(progen.render(prog)), files_text(files)
+        if i % 4 >= 2:
+            flags = False
+            text, ftexts, _ = spell_case(rng, prog, files)
+        impl = run_text(text, host, flags, ftexts=ftexts)
         bad = oracle_run(prog, host, impl, files)
         if bad:
             witness_all(ctx, 'program', {'text': text, 'globals': host, 'explicit_flags': flags, 'prog': prog, 'fprogs': files,
-                                         'files': files_text(files)}, bad)
+                                         'files': ftexts}, bad)
             return
 
 
@@ -1553,8 +1853,7 @@ def replay(witness):
     kind = inp.get('kind')
     oracle = witness.get('oracle')
     if kind == 'program':
-        model = parse(inp['text'])
-        impl = run_impl(explicit_flags(model) if inp.get('explicit_flags') else model, inp['globals'], files=inp.get('fprogs'))
+        impl = run_text(inp['text'], inp['globals'], inp.get('explicit_flags'), files=inp.get('fprogs'), ftexts=inp.get('files'))
         if oracle == 'no-host-exception':
             return 'hostexc' in impl
         bad = oracle_run(inp['prog'], inp['globals'], impl, inp.get('fprogs'))
@@ -1568,9 +1867,10 @@ def replay(witness):
             return 'hostexc' in impl
         bad = oracle_run(inp['prog'], inp['globals'], impl)
     elif kind == 'binding':
-        model = parse(inp['text'])
-        impl = run_impl(explicit_flags(model) if inp.get('explicit_flags') else model, {})
+        impl = run_text(inp['text'], {}, inp.get('explicit_flags'))
         bad = check_binding_cell(tuple(inp['cell']), impl)
+    elif kind == 'header':
+        bad = oracle_header(inp['header'], inp['params'], inp['rest'])
     elif kind == 'rest-fresh':
         bad = oracle_rest_fresh(inp['nparams'], inp['nargs'])
     elif kind == 'host-injection':
@@ -1599,7 +1899,9 @@ LEVEL_TEXT = ('Theorems about the Lean mirror of runtime.py (evaluate_expression
               'library; a `function` statement rebinds the global to the script function whatever was there; direct calls, call-backs of '
               'library trees and partial applications all go through the one callValue, so the binding theorem applies on every path. Tie: '
               'differential runs (result, log, final globals, statement count) of generated call programs, an exhaustive '
-              'parameters x arguments x call-path matrix, an exhaustive include-position x local-binding x global-state matrix, generated '
+              'parameters x arguments x call-path matrix, an exhaustive include-position x local-binding x global-state matrix, the '
+              'definition line in every white-space spelling (exhaustive blank / no blank at each boundary, each boundary x tab, Unicode spaces, '
+              'line continuation) and a third of all generated programs re-spelled at random, generated '
               'programs with include statements in every scope and host-shadowing configurations against the compiled model, and an '
               'independent Python reference of the convention plus closed-form and metamorphic oracles run on the implementation.')
 LEVEL_NOTE = ('Trusted: Lean kernel; the correspondence harness with its reference interpreter. The Lean host models 18 library functions; '
